@@ -109,6 +109,26 @@ func runC13(c *Ctx, r *Report) {
 		if derivesFromInput(st.Addr) {
 			r.Fail("C13.R1", mname, "store into a field of the input node", c.Pos(st.Pos()), "Modify writes into the tree it was given: expanding a macro call (or rewriting for registers) alters the definition or the other call sites that share the node")
 		}
+		// element store through a slice (or map) that a local copy of the node still shares with the input:
+		//   newNode := *node; newNode.Elements[i] = ...
+		if ia, ok := st.Addr.(*ssa.IndexAddr); ok {
+			if why := sharedWithInput(ia.X, st, derivesFromInput); why != "" {
+				a := armOf(st.Block())
+				an := "?"
+				if a != nil {
+					an = a.t.Obj().Name()
+				}
+				r.Fail("C13.R1", mname, "element store in arm *ast."+an+" goes into storage of the input node", c.Pos(st.Pos()), why+": the copy made with `*node` shares the backing array of its child list with the original, so rewriting one call site (or one register allocation) rewrites the tree every other use shares")
+			}
+		}
+	})
+	eachInstr(modify, func(in ssa.Instruction) {
+		if mu, ok := in.(*ssa.MapUpdate); ok {
+			nStores++
+			if why := sharedWithInput(mu.Map, mu, derivesFromInput); why != "" {
+				r.Fail("C13.R1", mname, "map update goes into a map of the input node", c.Pos(mu.Pos()), why)
+			}
+		}
 	})
 	// values handed to f in arms of types with children must be fresh
 	eachInstr(modify, func(in ssa.Instruction) {
@@ -314,6 +334,7 @@ func runC13(c *Ctx, r *Report) {
 		r.Check(n > 0 && okFresh, "C13.R6", ssaFuncName(ext), "macro parameters are bound in an environment created for this expansion", c.Pos(ext.Pos()),
 			"parameters are bound in an environment that outlives the expansion: the binding of an earlier call site (e.g. an all-upper-case parameter, which cannot be rebound) sticks for later call sites")
 		sub := NewReport("C07", r.Tier, c)
+		sub.Sub = true
 		runC07(c, sub)
 		for _, o := range sub.Obls {
 			if o.Rule != "C07.R7" {
@@ -331,6 +352,7 @@ func runC13(c *Ctx, r *Report) {
 
 	// shared C02.R2
 	sub := NewReport("C02", r.Tier, c)
+	sub.Sub = true
 	runC02(c, sub)
 	for _, o := range sub.Obls {
 		if o.Rule != "C02.R2" {
@@ -468,4 +490,65 @@ func (c *Ctx) checkDeleteWhileIterating(r *Report, rule string, fn *ssa.Function
 		r.Undecided("%s: no deletion at a loop index found in %s", rule, fname)
 	}
 	r.Floor(rule, 1)
+}
+
+// sharedWithInput: container value v (a slice or map used by a write at `at`) is loaded from a field of a
+// local copy of the input node, and no assignment of a fresh container to that field dominates the load.
+func sharedWithInput(v ssa.Value, at ssa.Instruction, derivesFromInput func(ssa.Value) bool) string {
+	ld, ok := v.(*ssa.UnOp)
+	if !ok {
+		return ""
+	}
+	fa, ok := ld.X.(*ssa.FieldAddr)
+	if !ok {
+		return ""
+	}
+	if derivesFromInput(fa) {
+		return "the container is read from the input node itself"
+	}
+	al, ok := fa.X.(*ssa.Alloc)
+	if !ok {
+		return ""
+	}
+	// does the local struct start as a copy of the input?
+	copied := false
+	for _, ref := range *al.Referrers() {
+		if st, ok := ref.(*ssa.Store); ok && st.Addr == ssa.Value(al) {
+			if src, ok := st.Val.(*ssa.UnOp); ok && derivesFromInput(src.X) {
+				copied = true
+			}
+			if src, ok := st.Val.(*ssa.UnOp); ok {
+				if ex, ok := src.X.(*ssa.Extract); ok && derivesFromInput(ex) {
+					copied = true
+				}
+			}
+		}
+	}
+	if !copied {
+		return ""
+	}
+	// a dominating assignment of a new container to that field
+	for _, ref := range *al.Referrers() {
+		fa2, ok := ref.(*ssa.FieldAddr)
+		if !ok || fa2.Field != fa.Field {
+			continue
+		}
+		for _, r2 := range *fa2.Referrers() {
+			st, ok := r2.(*ssa.Store)
+			if !ok || st.Addr != ssa.Value(fa2) || !instrDominates(st, ld) {
+				continue
+			}
+			switch x := st.Val.(type) {
+			case *ssa.MakeSlice, *ssa.MakeMap:
+				return ""
+			case *ssa.Call:
+				if bi, ok := x.Common().Value.(*ssa.Builtin); ok && bi.Name() == "append" {
+					if k, ok := x.Common().Args[0].(*ssa.Const); ok && k.IsNil() {
+						return ""
+					}
+				}
+			}
+		}
+	}
+	return "the local node is a copy of the input (`*node`) and the field holding this container is not given a new container before the write"
 }
